@@ -28,14 +28,15 @@ KF_FALLBACK = os.path.join(vlib.VERIF, "build", "kf-C11.json")
 
 # ------------------------------------------------------------------------------------------ running the real pipeline
 
-def run_robust(binary, sources):
+def run_robust(binary, sources, limit=None):
     """Feed sources to `vharness run c11`; survive crashes/hangs of the child. Returns list of result lines
     ('R ...', 'CRASH rc=..', 'HANG')."""
+    argv = [binary, "run", "c11"] + (["robust", str(limit)] if limit else [])
     results = []
     i = 0
     while i < len(sources):
         text = "".join((s.encode("utf-8").hex() or "-") + "\n" for s in sources[i:])
-        p = subprocess.run([binary, "run", "c11"], input=text, capture_output=True, text=True, timeout=7200)
+        p = subprocess.run(argv, input=text, capture_output=True, text=True, timeout=7200)
         lines = [l for l in p.stdout.split("\n") if l]
         got = lines[:len(sources) - i]
         results.extend(got)
@@ -328,6 +329,13 @@ def run(chk):
             if fid:
                 known_seen.setdefault(fid, (s, line))
                 continue
+            if line == "HANG":
+                # a busy machine must not produce a false alarm: the case alone, with six times the limit
+                again = run_robust(binary, [s], limit=120)[0]
+                if again.startswith("R ") and not again.partition(" | ")[2].strip():
+                    chk.notes.append("a case exceeded 20 s in the batch but finished alone within 120 s (machine load): %r" % s[:80])
+                    continue
+                line = "HANG (twice: 20 s in the batch, 120 s alone) " + again[:200]
             fails.append({"group": group, "source": s if len(s) < 3000 else s[:3000] + "...", "stages": "", "violation": line[:400]})
     chk.coverage["robust_cases"] = len(cases)
     chk.coverage["nesting_depth"] = DEPTH
